@@ -30,15 +30,24 @@ theorem fill_after_guard_eq (s c n len : Int) : fill_after_guard s c n len = fil
 theorem fill_after_len_eq (s c n len : Int) : fill_after_len s c n len = fillAfterLen s c n := by
   simp only [fill_after_len, fillAfterLen]
 
-theorem concat_neg_reject_eq (idx len : Int) : concat_neg_reject idx len = concatNegReject idx len := by
-  simp only [concat_neg_reject, concatNegReject]
+/-- the condition under which `ValueError` is raised, whether the guard is nested in `if idx < 0:` (`-idx > len`) or stands
+before it (`idx < -len`): for every length `len ≥ 0` it is `idx < 0 ∧ -idx > len`, the test `locate` makes -/
+theorem concat_neg_reject_eq (idx len : Int) (h : 0 ≤ len) :
+    concat_neg_reject idx len = (decide (idx < 0) && concatNegReject idx len) := by
+  rw [Bool.eq_iff_iff]
+  simp only [concat_neg_reject, concatNegReject, Bool.and_eq_true, decide_eq_true_eq]
+  first | done | omega
 
 theorem concat_neg_idx_eq (idx len : Int) : concat_neg_idx idx len = concatNegIdx idx len := by
   simp only [concat_neg_idx, concatNegIdx]
+  first | done | omega
 
-theorem concat_sample_idx_eq (idx d prev curc : Int) :
+/-- the local index: `idx if d == 0 else idx - prev`, or `idx - (prev if d > 0 else 0)` through the start offset of the
+selected member — equal for every member number `d ≥ 0` (the bisection result) -/
+theorem concat_sample_idx_eq (idx d prev curc : Int) (hd : 0 ≤ d) :
     concat_sample_idx idx d prev curc = concatSampleIdx idx d prev := by
-  simp only [concat_sample_idx, concatSampleIdx, beq_iff_eq]
+  unfold concat_sample_idx concatSampleIdx
+  by_cases h0 : d = 0 <;> by_cases h1 : d > 0 <;> simp [h0, h1] <;> omega
 
 /-- `out_sequence.append(length + total); total += length` is the step of `cumsumFrom` -/
 theorem cumsum_step_eq (l t : Nat) (ls : List Nat) :
